@@ -32,8 +32,9 @@ META = {
                   "retrieved response delivered (one may be dropped by a cancellation), closure reached while all "
                   "retrievals fail within a bounded number of attempts.",
     "level_note": "'Promptly' is checked as: after cancel/stop the stream closes although every retrieval keeps failing, "
-                  "within <= 300 immediate attempts (a busy loop is detected by count, not by time) and under a 60 s "
-                  "watchdog with proven quiescence (no gated retrieval, reader draining). A closed feed and an overflow "
+                  "within <= 300 immediate attempts (a busy loop is detected by count, not by time), under a 60 s "
+                  "watchdog with proven quiescence (no gated retrieval, reader draining), and -- after a streak of 10 "
+                  "consecutive failures of one height -- within 8 s of quiet time after cancel/stop (directed scenarios). A closed feed and an overflow "
                   "are noticed by the code only when the loop is back at its select; closing on feed close WHILE a "
                   "retrieval fails for ever is not demanded (in the node the feed closes on cancel or shutdown, which "
                   "are demanded) -- interpretive choice, under-demanding. The retry loop has no back-off (busy retry); "
@@ -172,7 +173,8 @@ def run(ctx):
     need = ["responses", "responses_with_blobs", "responses_without_blobs", "attempts_failed", "retries_same_height",
             "ended_by_cancel", "ended_by_stop", "ended_by_feed_close", "ended_by_overflow", "attempts_while_ending",
             "headers_taken_while_ending", "consumed_while_running", "scenarios_two_subscriptions",
-            "steps_applied_cex_orig", "steps_applied_tlc", "scenarios_systematic"]
+            "steps_applied_cex_orig", "steps_applied_tlc", "scenarios_systematic", "scenarios_streak",
+            "streak_closed_within_bound"]
     missing = [k for k in need if c.get(k, 0) <= 0]
     if missing and rep.get("counters"):
         ctx.inconclusive("vacuity: the driver never exercised %s" % missing)
